@@ -14,6 +14,7 @@ branch refinement for free.  Loops terminate through a visited set on (block, st
 budget bounds the exploration and exhausting it is reported as 'undecided' (fail closed), never as success.
 """
 import os
+import re
 import time as _time
 from .. import facts as F
 
@@ -311,6 +312,23 @@ class Interp:
                     cur = self._field(store, cur, e["i"])
             elif k == "downcast":
                 pass
+            elif k == "other" and (e.get("dbg", "").startswith("ConstantIndex") or e.get("dbg", "").startswith("Subslice")):
+                # slice patterns: `[first, rest @ ..]`
+                d = e["dbg"]
+                nums = dict((m_.group(1), m_.group(2)) for m_ in re.finditer(r"(\w+): (\w+)", d))
+                v = self.read_ref(store, cur) if isinstance(cur, Ref) else cur
+                h = getattr(self.dom, "slice_proj", None)
+                r = h(self, store, v, "index" if d.startswith("ConstantIndex") else "subslice", nums) if h is not None else None
+                if r is None:
+                    from .stdmodels import Seq
+                    if isinstance(v, Seq) and nums.get("from_end") == "false" and d.startswith("ConstantIndex"):
+                        i_ = int(nums["offset"])
+                        r = v.items[i_] if i_ < len(v.items) else TOP
+                    elif isinstance(v, Seq) and d.startswith("Subslice") and nums.get("from_end") == "true":
+                        r = Seq(v.items[int(nums["from"]):len(v.items) - int(nums["to"])])
+                    else:
+                        return TOP
+                cur = r
             else:
                 return TOP
         return cur
@@ -405,6 +423,11 @@ class Interp:
     # ---- rvalues -----------------------------------------------------------------------------
     def rvalue(self, store, frame, rv):
         k = rv["k"]
+        hook = getattr(self.dom, "rvalue_hook", None)
+        if hook is not None:
+            r = hook(self, store, frame, rv)
+            if r is not None:
+                return r
         if k == "use":
             return self.operand(store, frame, rv["op"])
         if k in ("ref", "rawptr"):
